@@ -92,10 +92,10 @@ def targets_of(expr, terms, ctx):
 def valpres(pre, post, *, op="valpres", key="", what="", seeds=(1, 2),
             budget=None, fock="gen", sym=(), antisym=(), extra=None,
             tgt_syms=None, sizes=None, more_sides=None, spin_model=None,
-            model_kw=None):
+            model_kw=None, names=None, global_models=None):
     """Event for a value preserving transformation pre -> post (adcgen Expr
     or sympy).  Raises adapter.Unsupported if a side has no AST."""
-    ctx = adapter.Ctx()
+    ctx = adapter.Ctx(names=names)
     tp = adapter.project_expr(pre, ctx)
     tq = adapter.project_expr(post, ctx)
     if tgt_syms is not None:
@@ -118,9 +118,23 @@ def valpres(pre, post, *, op="valpres", key="", what="", seeds=(1, 2),
     if budget is None:
         budget = BUDGET[TIER]
     szs = pick_sizes(list(sides.values()), ctx.idx, tgt, budget, spin=spin,
-                     sizes=sizes)
+                     sizes=sizes) if global_models is None else []
     models = []
-    for (no, nv) in szs:
+    if global_models is not None:
+        # [(ref index, no, nv)]: models shared by the events of the trace;
+        # use those within the budget (at least the cheapest one)
+        if budget is None:
+            budget = BUDGET[TIER]
+        costed = sorted((cost(list(sides.values()), ctx.idx, tgt, no, nv,
+                              spin), k, no, nv)
+                        for k, no, nv in global_models)
+        mincost = costed[0][0]
+        keep = [(k, no, nv) for c, k, no, nv in costed
+                if c <= budget or c == mincost]
+        keep.sort()
+        szs = [(no, nv) for _, no, nv in keep]
+        models = [{"ref": k} for k, _, _ in keep]
+    for (no, nv) in ([] if global_models is not None else szs):
         for sd in seeds:
             kw = dict(noa=no, nva=nv, nob=no if spin else 0,
                       nvb=nv if spin else 0, seed=sd, fock=fock, bkn=bkn)
@@ -128,6 +142,8 @@ def valpres(pre, post, *, op="valpres", key="", what="", seeds=(1, 2),
                 kw.update(model_kw)
             models.append(events.model(ctx, **kw))
     tabhint = table_hint(list(sides.values()), ctx, tgt, szs[0], spin)
+    if names is not None:      # shared numbering: pad to the common length
+        tabhint += [[] for _ in range(len(names) - len(tabhint))]
     ev = {"tabhint": tabhint, "op": op, "key": key, "what": what, "idx": ctx.idx, "tgt": tgt,
           "names": ctx.name_list(), "models": models,
           "text": {"pre": adapter.text(pre)[:600],
